@@ -1255,7 +1255,14 @@ where
         }
 
         for (log_height, matrices) in &height_groups {
-            let x = eval_points[log_height];
+            // Evaluation points exist for heights `1..=tallest`. A matrix of log height 0
+            // (a height-1 trace with `log_blowup = 0`) has none.
+            let x = *eval_points.get(log_height).ok_or_else(|| {
+                VerificationError::InvalidProofShape(format!(
+                    "batch {batch_idx}: no evaluation point for a matrix of log height {log_height} \
+                     (log_blowup = {log_blowup})"
+                ))
+            })?;
 
             // Fast-path detection: all matrices in this height group expose exactly one
             // (z, ps_at_z) pair AND they all share the same z. This is the common case
